@@ -128,6 +128,10 @@ def _mk_source(kind, payload, reals):
         return [tuple(p) for p in payload]
     if kind == "tuplepairs":
         return tuple(tuple(p) for p in payload)
+    if kind == "iterpairs":
+        return iter([tuple(p) for p in payload])  # a one-shot iterator: whoever looks at it consumes it
+    if kind == "genpairs":
+        return (tuple(p) for p in payload)
     if kind == "keysobj":
         return KeysObj(payload)
     raise core.InvalidCase
@@ -225,6 +229,8 @@ def observe(real, model: Model, HTTPHeaderDict) -> str | None:
         changed[k0] = plain[k0] + "!"
         if real == changed:
             return "d == (dict with a changed value) is True"
+    if not (real == iter(list(model.lines()))) or (real != (x for x in model.lines())):
+        return "d != one-shot iterator over its own lines"
     rebuilt = HTTPHeaderDict()
     for d, v in model.lines():
         rebuilt.add(d, v)
@@ -481,6 +487,7 @@ def ex_alphabet():
         ops.append(["set", -1, k, "2"])
     ops.append(["copy", 0])
     ops.append(["or", 0, "pairs", [["a", "1"], ["A", "2"]]])
+    ops.append(["ior", 0, "iterpairs", [["B", "1"], ["a", "2"]]])
     ops.append(["ior", 0, "hd", -1])
     ops.append(["extend", -1, "hd", 0])
     ops.append(["update", 0, "dict", [["a", "2"]]])
@@ -504,9 +511,11 @@ def _hyp_ops():
         st.tuples(st.just("dict"), uniq_pairs),
         st.tuples(st.just("pairs"), pairs),
         st.tuples(st.just("tuplepairs"), pairs),
+        st.tuples(st.just("iterpairs"), pairs),
+        st.tuples(st.just("genpairs"), pairs),
         st.tuples(st.just("keysobj"), uniq_pairs),
     )
-    op_src = st.one_of(st.tuples(st.just("hd"), idx), st.tuples(st.just("dict"), uniq_pairs), st.tuples(st.just("pairs"), pairs))
+    op_src = st.one_of(st.tuples(st.just("hd"), idx), st.tuples(st.just("dict"), uniq_pairs), st.tuples(st.just("pairs"), pairs), st.tuples(st.just("iterpairs"), pairs), st.tuples(st.just("genpairs"), pairs))
     upd_src = st.one_of(st.tuples(st.just("hd"), idx), st.tuples(st.just("dict"), ci_uniq_pairs), st.tuples(st.just("pairs"), ci_uniq_pairs))
     op = st.one_of(
         st.tuples(st.just("set"), idx, name, val).map(list),
